@@ -30,9 +30,9 @@ PROPS["C04"] = {
     "level": "exploration",
     "technique": "differential runtime monitor: interleaved standard-FB instances in generated ST programs vs. independent IEC models, compared after every call",
     "quick": {"shards": 8, "budget_s": 15},
-    "thorough": {"shards": 16, "budget_s": 240},
+    "thorough": {"shards": 16, "budget_s": 240, "release_pass": {"shards": 16, "budget_s": 60}},
     "floor": {"quick": 1000, "thorough": 20000},
-    "require_counters": {"quick": {"instance_steps_compared": 50000}, "thorough": {"instance_steps_compared": 2000000}},
+    "require_counters": {"quick": {"instance_steps_compared": 50000}, "thorough": {"instance_steps_compared": 2000000, "evaluations_under_release_semantics": 1000}},
     "rule": "case = (1-6 FB instances of mixed kinds/variants in one PROGRAM, trace of 4-64 cycles with per-instance inputs, call gating and dt "
             "drawn from {0,1ns,1ms,PT-1,PT,PT+1,10PT,2^58,...}; PT/PV incl. 0, negative, type limits). distinct = (FB type list, quantised "
             "trace shape); non-trivial = some instance's Q/QU output changed at least once during the trace (an edge / PT crossing happened)",
@@ -151,10 +151,10 @@ PROPS["C06"] = {
     "level": "exploration",
     "technique": "differential runtime monitor vs. a 60-line IEC task-model over generated task configurations and timelines, observed through runtime events, body-written sequence counters and overrun counters",
     "quick": {"shards": 8, "budget_s": 15},
-    "thorough": {"shards": 16, "budget_s": 240},
+    "thorough": {"shards": 16, "budget_s": 240, "release_pass": {"shards": 16, "budget_s": 60}},
     "floor": {"quick": 1000, "thorough": 20000},
     "require_counters": {"quick": {"cycles_compared": 50000, "cycles_with_two_or_more_due_tasks": 5000, "overrun_events_compared": 5000},
-                         "thorough": {"cycles_compared": 2000000}},
+                         "thorough": {"cycles_compared": 2000000, "evaluations_under_release_semantics": 1000}},
     "rule": "case = configuration (1-6 tasks: INTERVAL in {0,1,3,4,10 ms} incl. equal pairs, or SINGLE on one of 1-2 shared BOOL globals incl. initially TRUE, "
             "PRIORITY 0-2 with duplicates; 1-6 program instances attached to tasks or left as background; 0-2 FB instances associated with a task through "
             "register_task) x timeline of 20-80 cycles with dt in {0,1ns,1ms,I-1,I,I+1,2.5I,7I,...}, SINGLE edges written externally and by program bodies. "
@@ -231,9 +231,9 @@ PROPS["C01"] = {
     "level": "exploration",
     "technique": "outcome-class / frame-stack / logical-step monitors over generated and corpus ST programs in an overflow-checked build on a 2 MiB stack (panics caught, aborts attributed by journal)",
     "quick": {"shards": 8, "budget_s": 30, "watchdog_s": 900},
-    "thorough": {"shards": 16, "budget_s": 420, "watchdog_s": 3600},
+    "thorough": {"shards": 16, "budget_s": 420, "watchdog_s": 3600, "release_pass": {"shards": 16, "budget_s": 90}},
     "floor": {"quick": 5000, "thorough": 50000},
-    "require_counters": {"quick": {"programs_executed": 8000, "cycles_executed": 20000}, "thorough": {"programs_executed": 100000}},
+    "require_counters": {"quick": {"programs_executed": 8000, "cycles_executed": 20000}, "thorough": {"programs_executed": 100000, "evaluations_under_release_semantics": 5000}},
     "rule": _GEN_RULE,
     "level_text": "Every accepted program runs 3-5 cycles in the real runtime built with overflow checks and debug assertions; per cycle the monitor requires outcome in {Ok} u {DivisionByZero, "
                   "ModuloByZero, Overflow, IndexOutOfBounds, NullReference, ForStepZero, DateTimeRange, ExecutionTimeout}, an empty frame stack, no panic; an ExecutionTimeout counts as "
@@ -248,9 +248,9 @@ PROPS["C02"] = {
     "level": "exploration",
     "technique": "differential runtime monitor: every variable after every cycle and every fault class compared with an independently written IEC reference evaluator over the generator's own AST",
     "quick": {"shards": 8, "budget_s": 30, "watchdog_s": 900},
-    "thorough": {"shards": 16, "budget_s": 420, "watchdog_s": 3600},
+    "thorough": {"shards": 16, "budget_s": 420, "watchdog_s": 3600, "release_pass": {"shards": 16, "budget_s": 90}},
     "floor": {"quick": 5000, "thorough": 50000},
-    "require_counters": {"quick": {"variables_compared": 1000000, "faults_agreed": 3000, "cycles_compared": 20000}, "thorough": {"variables_compared": 20000000}},
+    "require_counters": {"quick": {"variables_compared": 1000000, "faults_agreed": 3000, "cycles_compared": 20000}, "thorough": {"variables_compared": 20000000, "evaluations_under_release_semantics": 5000}},
     "rule": "seeded type-directed random programs of the C02 core grammar (see DESIGN C02): elementary-type expressions over one signedness family per operation, assignments incl. implicit "
             "widening, IF/CASE/FOR/WHILE/REPEAT/EXIT/CONTINUE/RETURN, arrays, structs, user functions (positional and named calls), FB instances with state and omitted inputs, "
             "short-circuit guard patterns, FOR bounds evaluated once, loops ending at the type limit; 3-5 cycles of boundary-biased inputs. distinct = (feature set, program hash bucket, "
